@@ -290,7 +290,10 @@ PROPS["C10"] = dict(
          "structs from objects and arrays, every enum spelling, bytes from strings with lone surrogates, f32, nested options), the "
          "crafted typed corpus of C16's op tt, 61 number spellings against every leaf target and as quoted keys of every integer "
          "width, and 2000 (thorough 20000) random schemas with a matching value's compact and whitespace-spaced text; every "
-         "prefix is run through the universal seed (str, slice or reader) and through the typed model Model.Typed.deTypedTop.",
+         "prefix is run through the universal seed (str, slice or reader) and through the typed model Model.Typed.deTypedTop. "
+         "Streams (op spfx): the whole next()/byte_offset() history of StreamDeserializer<Value> / <IgnoredAny> over EVERY prefix of 19 "
+         "fixed streams, every token sequence of length <= 2 (thorough 3) that starts with a value, and 300 (thorough 3000) "
+         "concatenations of 1-4 generated values with every separator choice; source chosen per case among str, slice, reader.",
     trusted_base=MACHINE_TB,
     assumptions=["raw values as typed targets are covered by correspondence only (C19); the typed theorems are about the universal "
                  "seed's schema universe (harness/src/schema.rs), whose visitors are transcribed in SJ/Model/FromValue.lean",
@@ -302,7 +305,8 @@ PROPS["C10"] = dict(
              "c10_typed_prefix_partial: for schemas containing an f64 / f32 / Value target the typed theorem carries the same inherent "
              "NumberOutOfRange exception (a prefix can be a complete out-of-range float literal); c10_typed_prefix has no exception "
              "for every other schema (128-bit integers and all key kinds included)",
-             "stream iteration: not modelled"],
+             "c10_stream_prefix_partial: streams of Value items carry the same inherent NumberOutOfRange exception (open known finding "
+             "C10-out-of-range-number-prefix-stream); c10_stream_prefix_ignored has none; streams of typed item types are not modelled"],
     technique="Lean 4 theorems over a byte-step machine model (fold decomposition + exhaustive analysis of the end-of-input table "
               "against the classify arms regenerated from error.rs) + differential prefix sweep against the crate",
     level_text="Machine-checked: for the Value and IgnoredAny targets, in every feature configuration and for every input source, "
@@ -318,13 +322,18 @@ PROPS["C10"] = dict(
                "deserializer + end() is never accepted with a different reading: it fails with an Eof-classified error (visitor "
                "errors and fuel exhaustion excluded by proof: typed_no_panic, typed_fuel_suffices); c10_typed_prefix_partial covers "
                "all schemas with the NumberOutOfRange exception; c10_typed_core is the relational core. "
+               "Streams: c10_stream_prefix_partial / c10_stream_prefix_ignored - as long as the stream over the whole input yields values, the "
+               "stream over any prefix yields the same values with the same byte_offset()s up to the one call that runs into the cut, and "
+               "that call yields None at the cut, a value ending exactly at the cut (a number literal cut short is a shorter number: the "
+               "end of input delimits a bare scalar), or an error positioned at the end of the prefix that is Eof-classified (Value items: "
+               "or the inherent NumberOutOfRange) - never another Syntax error, never a value or offset the full input does not produce. "
                "classify and the error codes are regenerated from src/error.rs each run; the machine and the typed model are compared "
                "with the crate on every prefix of generated and exhaustive short documents, and the property's own predicate is "
                "evaluated on the crate's outputs.",
     level_note="Trusted: Lean kernel + propext/Classical.choice/Quot.sound; extract.py; harness/driver; the hand-written machine model "
                "(validated by correspondence, 0 disagreements) and the hand-written typed model SJ/Model/Typed.lean (transcription of "
-               "impl Deserializer for &mut Deserializer<R>, validated by ops tt / tt3 / pfxs / rfaults, 0 disagreements). Raw values and "
-               "streams are not inside the typed model.",
+               "impl Deserializer for &mut Deserializer<R>, validated by ops tt / tt3 / pfxs / rfaults, 0 disagreements); the stream model "
+               "Model.Stream (ops stream, spfx). Raw values are not inside the typed model (C19 has its own).",
 )
 
 PARSE_RULE = ("every token sequence of length <= 3 (thorough: 4, 1/4 sampled by seed) over the 43-token structural alphabet "
@@ -336,17 +345,27 @@ PARSE_RULE = ("every token sequence of length <= 3 (thorough: 4, 1/4 sampled by 
               "distinct = distinct (op, config, input) lines.")
 
 PROPS["C09"] = dict(
-    lean_targets=["SJ.Props.C09", "SJ.Props.TypedSrc", "SJ.Audit.C09"],
-    configs=dict(quick=["d", "ap"], thorough=["d", "ap", "fr", "po"]),
+    lean_targets=["SJ.Props.C09", "SJ.Props.TypedSrc", "SJ.Props.C09Stream", "SJ.Audit.C09"],
+    configs=dict(quick=["d", "ap", "rv"], thorough=["d", "ap", "fr", "po", "rv"]),
     gen_keys=["error.", "de."],
     rule=PARSE_RULE + " C09 adds multi-line documents (spaces turned into newlines) with 4 mutations each; the three sources' "
          "outcomes (message, category, line, column, value) are compared with each other and with the model. Typed targets (op tt3): "
-         "the crafted typed corpus and random (schema, text) pairs with byte-level mutations, each from str, slice and a chunked reader.",
+         "the crafted typed corpus and random (schema, text) pairs with byte-level mutations, each from str, slice and a chunked reader. "
+         "Streams (op stream3): whole next()/byte_offset() histories of StreamDeserializer<Value> and <IgnoredAny> from str, slice and a "
+         "reader with a random chunking, continuing 3 calls past the end, on 47 fixed streams (multi-line ones included), every token "
+         "sequence of length <= 2 (thorough 3), concatenations of 1-4 generated values with every separator choice, each truncated and "
+         "twice corrupted. Raw values (raw_value configuration; ops raw3, rawnest): Box<RawValue> from the three sources on a fixed "
+         "corpus, every token sequence of length <= 2 (thorough 3), multi-line generated documents with 3 mutations each; "
+         "Vec<Box<RawValue>> / map-of-RawValue captures of generated arrays and objects with 2 mutations each.",
     trusted_base=MACHINE_TB,
     assumptions=["io::Bytes yields the reader's bytes one at a time in order, whatever the chunking (std)",
-                 "raw values and stream iteration are not inside the model; typed targets are modelled (Model.Typed) and run by "
-                 "op tt3 (str, slice, reader outcomes of one text against deTypedTop with src = slice / reader)"],
-    partial=["raw, stream byte_offset: correspondence only"],
+                 "typed targets are modelled (Model.Typed) and run by op tt3 (str, slice, reader outcomes of one text against "
+                 "deTypedTop with src = slice / reader); streams by Model.Stream (op stream3), raw captures by Model.Raw / "
+                 "Model.RawNested (ops raw3, rawnest)"],
+    partial=["c09_raw_nested_sources / c09_raw_map_sources state the agreement of SUCCESSFUL nested captures (Vec<Box<RawValue>>, map of "
+             "Box<RawValue>); for failing inputs the error of the enclosing Vec / map is a typed-target error (positions of visitor "
+             "errors may differ by the reader's peeked byte): evaluated per case by op rawnest",
+             "stream items of typed item types: not modelled (Value and IgnoredAny items are)"],
     technique="Lean 4 theorem: the byte-step machine's outcome is independent of the slice/reader source (step-wise equality + all "
               "error sites include the offending byte); typed targets by a two-run simulation over the typed model (Proofs/TypedSim: "
               "the runs differ only at errorIdx sites with a peeked byte) + three-source differential run against the crate",
@@ -363,8 +382,14 @@ PROPS["C09"] = dict(
                "peek slot; typed_within_input: every typed error index is <= the input length); c09_typed_slice_reader_class (same value / same code / both Data, index equal "
                "or reader = slice + 1: the predicate op tt3 evaluates), _ok, _err (every other parser error at the same index); "
                "c09_typed_str_slice / c09_typed_all_sources — on valid UTF-8 the &str source gives the identical typed outcome (the "
-               "typed parser consumes ASCII outside strings, so every string starts on a character boundary). The crate is run on every "
-               "generated input from all three "
+               "typed parser consumes ASCII outside strings, so every string starts on a character boundary). "
+               "c09_stream_offsets (StreamDeserializer: "
+               "for every input, item type and number of calls, the slice and reader sources yield the same sequence of items - values, or "
+               "errors with the same code at the same index - and the same byte_offset() after every call; on valid UTF-8 input so does "
+               "the &str source: the unread input of a stream stays valid UTF-8 after each value), c09_raw_sources (from_*::<Box<RawValue>>: "
+               "identical captured span or identical error code and index from slice and reader; from &str too on valid UTF-8 input - a "
+               "captured value begins and ends with an ASCII byte, so the byte sources' from_utf8 check cannot fail there), "
+               "c09_raw_nested_sources / c09_raw_map_sources (successful Vec<Box<RawValue>> / map-of-RawValue captures agree across the three sources). The crate is run on every generated input from all three "
                "sources with random chunkings and the outcomes are compared with each other (spec) and with the model.",
     level_note="Trusted: Lean kernel + 3 standard axioms; extract.py; harness/driver; hand-written machine model validated by "
                "correspondence. Two genuine position defects found by this check were repaired in /repo (fix: commits 28defde, 9343bad).",
@@ -409,14 +434,18 @@ PROPS["C14"] = dict(
          "newtype / tuple / struct enum variants, Option+newtype around Vec) and their rotation, 1, 2, 63 and 124..129 layers (62..65 for the "
          "two-level kinds) around six leaves (bool, Vec<u8> from an array, nested Value, IgnoredAny, Vec, scalar Value), complete / "
          "cut before the closers / cut in half, from slice, reader and str, compared with the typed model; under unbounded_depth also "
-         "with disable_recursion_limit() up to 200 layers (tag ud+nolimit).",
+         "with disable_recursion_limit() up to 200 layers (tag ud+nolimit). "
+         "Streams (op sdepth): "
+         "StreamDeserializer over two items nested d1 / d2 deep for d1, d2 in {0,1,2,126,127,128,129,200} (quick: at least one of them "
+         ">= 126), bracket mixes arrays / objects / alternating, separators none / space / newline / mixed, items Value and "
+         "IgnoredAny, sources str / slice / reader, 4 calls; with unbounded_depth also with the limit disabled.",
     trusted_base=MACHINE_TB,
     assumptions=["memory safety of compiled unsafe blocks, real stack consumption and allocator behaviour are runtime properties outside any model (partial by nature)"],
     partial=["the shape invariant making every remaining model fallback unreachable is proved inside the soundness development "
              "(Proofs/Sound: Inv) but not restated per fallback",
-             "stream depth restoration: not modelled (within one typed run the budget is restored by construction: siblings are read "
-             "at the same depth argument); the recursive Rust type of op tdepth (enum Nest) has no finite schema: its towers are "
-             "covered by the unrolled enum schemas of typed::run_tdepth"],
+             "the recursive Rust type of op tdepth (enum Nest) has no finite schema: its towers are covered by the unrolled enum "
+             "schemas of typed::run_tdepth; c14_stream_depth_restored is about streams of Value / IgnoredAny items (the explicit "
+             "counter of Model.StreamDepth follows deserialize_any's two check_recursion! sites)"],
     technique="Lean 4 invariants over the byte-step machine (stack height < 128 for every reachable state, re-dispatch happens at most "
               "once, UTF-8 of every returned string, no fuel exhaustion, termination by structural recursion) + pathological-input "
               "runs of the crate under catch_unwind (thorough: also under AddressSanitizer)",
@@ -426,7 +455,12 @@ PROPS["C14"] = dict(
                "returned value is valid UTF-8 - for the &str source, which uses str::from_utf8_unchecked, given that its input is "
                "valid UTF-8) and c14_utf8_at_closing_quote (the same at every closing quote reached, also in documents rejected "
                "later), c14_no_fuel / c14_no_fuel_machine (the fuelled f64_from_parts loop of the number conversion never runs out of "
-               "fuel on anything the scanner produces; the float_roundtrip conversion has no fuel); termination by construction. Typed targets "
+               "fuel on anything the scanner produces; the float_roundtrip conversion has no fuel); c14_stream_depth_restored / "
+               "c14_stream_item_budget (Model.StreamDepth threads the Deserializer's remaining_depth counter through a whole stream, "
+               "decrementing / incrementing it where check_recursion! does and testing the limit on the counter: it yields exactly the "
+               "items and offsets of the stream model, the counter reads 128 after every value - and after every failed item except "
+               "RecursionLimitExceeded itself, which leaves 127 once the stream is already fused - so every item that is parsed has the "
+               "full budget of 127 levels); termination by construction. Typed targets "
                "(Props/TypedDepth.lean over Model.Typed): c14_typed_depth_bounded (with the limit enabled, the model with every "
                "deserialize_* call at 128 or more open containers replaced by an arbitrary poison outcome is the same function from "
                "every depth <= 127: no such call is ever made — at most 127 containers are open on any input, accepted or not, for "
@@ -507,30 +541,56 @@ PROPS["C13"] = dict(
 )
 
 PROPS["C19"] = dict(
-    lean_targets=["SJ.Props.C19", "SJ.Props.C01Iff", "SJ.Audit.C19"],
+    lean_targets=["SJ.Props.C19", "SJ.Props.C19Nested", "SJ.Props.C01Iff", "SJ.Audit.C19"],
     configs=dict(quick=["rv"], thorough=["rv", "rvpofr"]),
-    gen_keys=["error.", "de."],
+    gen_keys=["error.", "de.", "ser."],
     rule=PARSE_RULE + " C19 adds, with raw_value enabled: every token sequence of length <= 2 (thorough 3), generated documents and "
          "their mutations captured at top level as Box<RawValue> and &RawValue from str/slice and Box<RawValue> from a reader "
          "(five captures compared with each other, with the model and with the value's source text; a borrowed capture must be "
          "a subslice at the right offset); arrays, objects and structs whose elements' exact source spans are known to the "
          "generator, with every whitespace placement around them, captured as Vec<&RawValue>/Vec<Box<RawValue>>/BTreeMap/struct "
          "fields (incl. an unknown field skipped in between); RawValue::from_string on the same inputs with to_string, pretty, "
-         "nested and to_value of the result.",
-    trusted_base=MACHINE_TB,
+         "nested and to_value of the result. Op rawnest: Vec<Box<RawValue>> (and Vec<&RawValue>, which must be subslices) and the "
+         "entries of a map of Box<RawValue> in source order, from str, slice and a chunked reader, on a fixed corpus, every token "
+         "sequence of length <= 2 (thorough 3) bare and wrapped in [..], [1,..], {\"k\":..}, {..:1}, generated arrays/objects with "
+         "whitespace variety, 3 mutations each and every prefix of a quarter of them; compared with the nested-capture model "
+         "(Model.RawNested) and with element spans computed by the independent scanner Spec.Pos. Op rawser: serializer programs "
+         "with RawValues at arbitrary positions (random RVal programs of depth <= 3 over every container constructor, RawValue "
+         "keys included, leaves = C03 programs) through a recording writer, compact and pretty with indents two spaces / tab / "
+         "empty; compared buffer by buffer with Model.SerRaw.",
+    trusted_base=MACHINE_TB + ["serializer model Model.Ser (C03) for op rawser; typed sequence/map machinery of Model.Typed for op rawnest"],
     assumptions=["RawValue's transmutes between str and RawValue (layout) are outside the model",
-                 "nested captures (array element, object value, struct field) are checked against generator-known spans, not modelled"],
-    partial=["c19_verbatim (serialising writes the text unchanged) and nested capture positions are by correspondence only"],
-    technique="Lean 4 theorems on the top-level capture model (runPrefix = feed + finish: the captured span is accepted on its own as one "
-              "value; surroundings are whitespace) + span-exact differential run with generator-known element spans",
+                 "struct fields captured raw (derive-generated visitor) are checked against generator-known spans (op rawelems), not modelled",
+                 "to_value(RawValue) = from_str(text) is checked per case (op rawstr), not modelled"],
+    partial=["object values captured raw: c19_nested_capture_map / c19_nested_grammar_map are about the entry sequence handed to the map "
+             "visitor (source order, duplicates included); what BTreeMap / IndexMap make of duplicates is C17; the converse grammar "
+             "direction and the comparison with the parsed Value (c19_nested_complete, c19_nested_canon) are proved for arrays only",
+             "c19_nested_capture / c19_top_complete on byte sources take the UTF-8 validity of the element texts as hypothesis (it is "
+             "what from_utf8 checks); that it follows from the UTF-8 validity of the whole input is proved for the three-source "
+             "statement only (C09 c09_raw_sources)"],
+    technique="Lean 4 theorems: top-level and array-element capture = exactly one grammar value (soundness of the machine on the consumed "
+              "bytes + completeness to exclude a shorter/longer reading; loop invariant over SeqAccess), iff with the concatenation "
+              "structure of the array text; one-hole contexts over the RawValue serializer route; span-exact differential runs",
     level_text="Machine-checked: c19_skip_language (the scanner of skipped/raw content accepts a byte string iff it is exactly one RFC "
-               "8259 JSON text, with no depth, surrogate, UTF-8 or range condition), runPrefix_feed and c19_captured_reparses (whatever is captured at top level, taken on its own, is "
-               "accepted by the scanner as exactly one value, from the first non-whitespace byte), skipWs_prefix (only whitespace "
-               "precedes it; rawTop rejects anything but whitespace after it). The crate's captures at top level and at every "
-               "nested position are compared byte for byte with the source spans; from_string/to_string/to_value round trips are "
-               "checked on every input.",
-    level_note="Trusted: Lean kernel + 3 standard axioms; extract.py; harness/driver; machine model (ignored target). The scanner-vs-"
-               "grammar equivalence is being proved separately (C01/C02 branches).",
+               "8259 JSON text, with no depth, surrogate, UTF-8 or range condition), runPrefix_feed and c19_captured_reparses; "
+               "c19_top_span / c19_top_complete (from_*::<Box<RawValue>> captures bs[p..e] iff the input is whitespace, one grammar value "
+               "(Derives, first to last byte, valid UTF-8 on byte sources), whitespace - and then exactly that value); c19_nested_capture "
+               "(from_*::<Vec<Box<RawValue>>> succeeds with captures cs iff the input is ws [ inner ] ws with inner = ws or ws c1 (ws , ws "
+               "ci)* ws and every ci one grammar value: each element is captured from its first to its last byte, nothing else is "
+               "accepted), c19_nested_grammar / c19_nested_complete (these decompositions are the array derivations JsonText bs (arr ts) "
+               "with Derives ci ti), c19_nested_canon (if the same bytes parse into a Value it is an array of as many elements and the "
+               "i-th capture parses on its own to the i-th element); c19_nested_capture_map (a map with String keys and Box<RawValue> values "
+               "succeeds with entries (s_i, c_i) iff the input is ws { inner } ws, inner = ws or ws member (ws , ws member)* ws, member = key "
+               "literal ws : ws c, every key a well-formed literal with paired escapes decoding to s_i (valid UTF-8 on byte sources) and "
+               "every c_i one grammar value), c19_nested_grammar_map (these are object derivations JsonText bs (obj members)); c19_verbatim (a RawValue in the hole of any serializer context - seq, "
+               "tuple, variants, map value, struct field, Some/newtype, nested to any depth - is handed to the writer as one buffer "
+               "holding exactly its text, by the compact and every pretty formatter, and nothing else that is written depends on the "
+               "text), c19_verbatim_top, c19_verbatim_bytes, c19_serR_is_ser (the extended serializer is the C03 serializer with the "
+               "RawValue replaced by a literal leaf), c19_raw_key_rejected. The crate's captures at top level and at every nested "
+               "position are compared byte for byte with the source spans and with the models; from_string/to_string/to_value round "
+               "trips are checked on every input.",
+    level_note="Trusted: Lean kernel + 3 standard axioms; extract.py; harness/driver; machine model (ignored target), the typed model's "
+               "sequence/map machinery, Model.RawNested and Model.SerRaw (validated by ops rawnest / rawser, 0 disagreements).",
 )
 
 PROPS["C01"] = dict(
